@@ -14,6 +14,7 @@ def prove_all(sort=None):
         'x/(-y) = -(x/y)': same(z3.fpDiv(R, x, z3.fpNeg(y)), z3.fpNeg(z3.fpDiv(R, x, y))),
         'x+y = y+x': same(z3.fpAdd(R, x, y), z3.fpAdd(R, y, x)),
         'x*y = y*x': same(z3.fpMul(R, x, y), z3.fpMul(R, y, x)),
+        'fma(-x,y,z) = fma(x,-y,z)': same(z3.fpFMA(R, z3.fpNeg(x), y, z3.FP('z', S)), z3.fpFMA(R, x, z3.fpNeg(y), z3.FP('z', S))),
         '-(-x) = x': same(z3.fpNeg(z3.fpNeg(x)), x),
         'xor signbit = fneg': z3.fpToIEEEBV(z3.fpNeg(x)) == (z3.fpToIEEEBV(x) ^ z3.BitVecVal(0x8000, 16)) if sort is None else z3.BoolVal(True),
         'and 0x7fff = fabs': z3.fpToIEEEBV(z3.fpAbs(x)) == (z3.fpToIEEEBV(x) & z3.BitVecVal(0x7fff, 16)) if sort is None else z3.BoolVal(True),
